@@ -5,34 +5,68 @@ import GceTcb.Proofs.Endorse
 namespace GceTcb.VF
 open GceTcb GceTcb.Endorse GceTcb.Manifest GceTcb.Commit
 
-theorem plan_dry_noErr (c : Cfg) (e : Entry) (a : Attempt) (hd : c.dryRun = true) :
+/-- A dry run's change function fails only on a refused candidate name (manifest mode). -/
+theorem plan_dry_noErr (c : Cfg) (e : Entry) (a : Attempt) (hd : c.dryRun = true)
+    (hn : c.snapshot = true ∨ nameOk c.cand = true) :
     (plan c e a).internalErr = false := by
   unfold plan
   split
   · rfl
-  · simp [hd, planDry]
+  · rename_i hs
+    have hok : nameOk c.cand = true := hn.resolve_left hs
+    simp [hd, planDry, hok]
 
-/-- With dry-run the loop makes one "attempt" that consults no backend: the only call on the
-    VersionControl double is Result(nil, path). -/
-theorem retryLoop_dry (c : Cfg) (e : Entry) (budget : Int) (hd : c.dryRun = true) (tries : Nat)
+theorem attempt_dry (c : Cfg) (e : Entry) (i : Nat) (a : Attempt) (hd : c.dryRun = true) :
+    attempt c e i a =
+      if (plan c e a).internalErr then ([], false) else ([evResult 0 false (plan c e a).certPath], true) := by
+  simp [attempt, hd]
+
+/-- With dry-run the loop consults no workspace: the only calls on the VersionControl double are
+    Result(nil, path) and — when the change function refused the candidate name — RetriableError queries. -/
+theorem retryLoop_dry_events (c : Cfg) (e : Entry) (budget : Int) (hd : c.dryRun = true) :
+    ∀ (script : List Attempt) (tries : Nat), ∀ ev ∈ (retryLoop c e budget tries script).1,
+      (ev.kind = .result ∧ ev.ok = false) ∨ ev.kind = .retriable := by
+  intro script
+  induction script with
+  | nil => intro tries ev hev; simp [retryLoop] at hev
+  | cons a rest ih =>
+    intro tries ev hev
+    have hA : ∀ x ∈ (attempt c e tries a).1, (x.kind = .result ∧ x.ok = false) ∨ x.kind = .retriable := by
+      intro x hx
+      rw [attempt_dry c e tries a hd] at hx
+      split at hx
+      · simp at hx
+      · simp at hx; subst hx; left; simp [evResult]
+    rcases mem_retryLoop_cons c e budget tries a rest ev hev with h | ⟨b, h⟩ | ⟨_, h, _⟩
+    · exact hA ev h
+    · right; rw [h]; rfl
+    · exact ih (tries + 1) ev h
+
+/-- With dry-run and an accepted name the loop makes one "attempt" that consults no backend: the only
+    call on the VersionControl double is Result(nil, path). -/
+theorem retryLoop_dry (c : Cfg) (e : Entry) (budget : Int) (hd : c.dryRun = true)
+    (hn : c.snapshot = true ∨ nameOk c.cand = true) (tries : Nat)
     (a : Attempt) (rest : List Attempt) :
     retryLoop c e budget tries (a :: rest) = ([evResult 0 false (plan c e a).certPath], .ok) := by
   have ha : attempt c e tries a = ([evResult 0 false (plan c e a).certPath], true) := by
-    simp [attempt, hd, plan_dry_noErr c e a hd]
+    simp [attempt, hd, plan_dry_noErr c e a hd hn]
   simp [retryLoop, ha]
 
 theorem commitPhase_dry (c : Cfg) (e : Entry) (budget : Int) (hd : c.dryRun = true)
     (script : List Attempt) :
-    (∀ ev ∈ (commitPhase false c e budget script).1, ev.kind = .result ∧ ev.ok = false) ∧
-    (script ≠ [] → (commitPhase false c e budget script).2 = .ok) ∧
+    (∀ ev ∈ (commitPhase false c e budget script).1, (ev.kind = .result ∧ ev.ok = false) ∨ ev.kind = .retriable) ∧
+    (script ≠ [] → (c.snapshot = true ∨ nameOk c.cand = true) → (commitPhase false c e budget script).2 = .ok) ∧
     (commitPhase false c e budget script).2 ≠ .panic := by
   unfold commitPhase
   simp only [Bool.and_false, Bool.false_eq_true, if_false]
-  cases script with
-  | nil => simp [retrySubmit, retryLoop]
-  | cons a rest =>
-    simp only [retrySubmit, retryLoop_dry c e budget hd 0 a rest]
-    simp [evResult]
+  refine ⟨?_, ?_, ?_⟩
+  · intro ev hev
+    exact retryLoop_dry_events c e budget hd script 0 ev hev
+  · intro hne hn
+    cases script with
+    | nil => exact absurd rfl hne
+    | cons a rest => simp [retrySubmit, retryLoop_dry c e budget hd hn 0 a rest]
+  · split <;> simp
 
 theorem commitPhase_ne_panic (c : Cfg) (e : Entry) (budget : Int) (script : List Attempt) :
     (commitPhase false c e budget script).2 ≠ .panic := by
@@ -62,8 +96,9 @@ theorem commitAll_ne_panic (c : Cfg) (e : Entry) (budget : Int) :
 
 theorem commitAll_dry (c : Cfg) (e : Entry) (budget : Int) (hd : c.dryRun = true) :
     ∀ l : List (Nat × List Attempt),
-      (∀ eff ∈ (commitAll false c e budget l).1, ∃ i ev, eff = Eff.vcs i ev ∧ ev.kind = .result ∧ ev.ok = false) ∧
-      ((∀ x ∈ l, x.2 ≠ []) → (commitAll false c e budget l).2 = .ok) := by
+      (∀ eff ∈ (commitAll false c e budget l).1, ∃ i ev, eff = Eff.vcs i ev ∧
+        ((ev.kind = .result ∧ ev.ok = false) ∨ ev.kind = .retriable)) ∧
+      ((∀ x ∈ l, x.2 ≠ []) → (c.snapshot = true ∨ nameOk c.cand = true) → (commitAll false c e budget l).2 = .ok) := by
   intro l
   induction l with
   | nil => simp [commitAll]
@@ -71,7 +106,7 @@ theorem commitAll_dry (c : Cfg) (e : Entry) (budget : Int) (hd : c.dryRun = true
     obtain ⟨i, s⟩ := x
     obtain ⟨p1, p2, _⟩ := commitPhase_dry c e budget hd s
     have hmap : ∀ eff ∈ (commitPhase false c e budget s).1.map (Eff.vcs i),
-        ∃ i ev, eff = Eff.vcs i ev ∧ ev.kind = .result ∧ ev.ok = false := by
+        ∃ i ev, eff = Eff.vcs i ev ∧ ((ev.kind = .result ∧ ev.ok = false) ∨ ev.kind = .retriable) := by
       intro eff heff
       obtain ⟨ev, hev, rfl⟩ := List.mem_map.mp heff
       exact ⟨i, ev, rfl, p1 ev hev⟩
@@ -83,10 +118,10 @@ theorem commitAll_dry (c : Cfg) (e : Entry) (budget : Int) (hd : c.dryRun = true
         · exact hmap eff h
         · exact ih.1 eff h
       · exact hmap
-    · intro hne
-      have h1 := p2 (hne (i, s) (by simp))
+    · intro hne hn
+      have h1 := p2 (hne (i, s) (by simp)) hn
       simp only [h1, if_true]
-      exact ih.2 (fun x hx => hne x (by simp [hx]))
+      exact ih.2 (fun x hx => hne x (by simp [hx])) hn
 
 theorem signDocEff_kinds (keys : Option Keys) (ts : Int × Nat) (g : Golden) :
     ∀ eff ∈ (signDocEff keys ts g).1.map ofSignEff,
